@@ -156,6 +156,34 @@ def _query(obj, ctx, q, extra=None):
         yield from one(lambda: canon(obj.header))
     elif n == 'get_interp_name':
         yield from one(obj.get_interp_name)
+    elif n == 'iter_split':
+        # one iterator of the held object suspended after k elements while another query runs on the same object, then resumed
+        # to its end (steps: k elements, the inner query's steps, the remaining elements, END)
+        itername, k, inner = a
+        ok, it = call(lambda: iter(getattr(obj, itername)()))
+        if not ok:
+            yield it
+            return
+        for phase in (k, None):
+            cnt = 0
+            while phase is None or cnt < phase:
+                try:
+                    x = next(it)
+                except StopIteration:
+                    yield END
+                    return
+                except RecursionError:
+                    yield ('EXC', 'RecursionError', '')
+                    return
+                except Exception as e:
+                    if type(e).__name__ == 'SimBudgetExceeded':
+                        raise
+                    yield exc_obs(e)
+                    return
+                yield canon(x)
+                cnt += 1
+            if phase is not None:
+                yield from _query(obj, ctx, inner, extra)
     elif n == 'sweep_units':
         # every unit of the file visited while the object is held (what the caller holds must survive whatever the
         # library does to its caches across many units)
